@@ -141,6 +141,12 @@ func (e *Encoder) writeObject(data interface{}) (int, error) {
 	vv = UnpackPtrValue(vv)
 
 	typ := vv.Type()
+	for i := 0; i < typ.NumField(); i++ {
+		if typ.Field(i).PkgPath != "" {
+			// reflection cannot read it (Interface() would panic)
+			return 0, newCodecError("writeObject", "unexported field %s of %v cannot be encoded", typ.Field(i).Name, typ)
+		}
+	}
 	clsName, ok := e.nameMap[typ.Name()]
 	if !ok {
 		clsName = typ.Name()
